@@ -102,7 +102,8 @@ void ezc3d::c3d::readFile(unsigned int nByteToRead, char * c, int nByteFromPrevi
 
 unsigned int ezc3d::c3d::hex2uint(const char * val, unsigned int len){
     unsigned int ret(0);
-    for (unsigned int i = 0; i < len; i++)
+    // An unsigned int holds 4 bytes: wider fields (reserved areas) contribute their 4 low-order bytes
+    for (unsigned int i = 0; i < len && i < 4; i++)
         ret |= static_cast<unsigned int>(static_cast<unsigned char>(val[i])) * static_cast<unsigned int>(pow(0x100, i));
     return ret;
 }
@@ -113,7 +114,7 @@ int ezc3d::c3d::hex2int(const char * val, unsigned int len){
     // convert to signed int
     // Find max int value
     unsigned int max(0);
-    for (unsigned int i=0; i<len; ++i)
+    for (unsigned int i=0; i<len && i<4; ++i)
         max |= 0xFF * static_cast<unsigned int>(pow(0x100, i));
 
     // If the value is over uint_max / 2 then it is a negative number
